@@ -501,7 +501,7 @@ def gen_cfg(rng, prop):
         if k != "mk":
             base[k] = 0
     nonint = 0 if (prop == "C05" and rng.chance(0.8)) else 1
-    arith = [("add", 3), ("sub", 3), ("mul", 3), ("min", 1), ("max", 1), ("neg", 1), ("abs", 1), ("absm", 1), ("sign", 1),
+    arith = [("add", 3), ("sub", 3), ("mul", 3), ("min", 1), ("max", 1), ("neg", 1), ("abs", 1), ("absm", 1), ("sign", 1), ("absm_kw", 1), ("sign_pos", 1),
              ("radd", 1), ("rsub", 1), ("rmul", 1), ("div", nonint), ("pow", nonint), ("rdiv", nonint)]
     return {"mix": [(k, w) for k, w in base.items() if w > 0], "fault_p": rng.choice([0.0, 0.1, 0.3]), "arith": arith,
             "ints": rng.choice([0, 0, 2]),
